@@ -1,9 +1,7 @@
-//! C05: persisted state is never older than what was published; restart restores it.
-//! The real agent runtime (AgentRouteTask::run_agent_with_store: init task, read / write tasks, store
-//! initialisers) runs a real agent (derived lane model, AgentModel) against a recording NodePersistence; a
-//! remote links, sends commands and logs every frame it receives on the same clock as the store's log.
-//! Every point of that log is then used as a crash point: the agent is started again on the store as it was
-//! at that point and its lanes and stores are inspected.
+//! C05 (runtime only): the real agent runtime (run_agent_with_store) against a scripted agent that behaves
+//! like lanes are allowed to: it answers a sync with its current state before it reports the change that
+//! produced that state, reports changes late, in batches. A recording NodePersistence and the remotes share
+//! one clock; every point of the log is a crash point.
 
 use std::collections::{BTreeMap, HashMap};
 use std::sync::atomic::{AtomicU64, Ordering};
@@ -13,12 +11,13 @@ use std::time::Duration;
 use bytes::BytesMut;
 use futures::{SinkExt, StreamExt};
 use parking_lot::Mutex;
-use swimos_agent::agent_lifecycle::HandlerContext;
-use swimos_agent::agent_model::AgentModel;
-use swimos_agent::event_handler::{EventHandler, HandlerActionExt};
-use swimos_agent::lanes::{MapLane, ValueLane};
-use swimos_agent::stores::{MapStore, ValueStore};
-use swimos_agent_derive::{lifecycle, AgentLaneModel};
+use futures::future::BoxFuture;
+use futures::FutureExt;
+use swimos_agent_protocol::encoding::lane::{MapLaneRequestDecoder, MapLaneResponseEncoder, ValueLaneRequestDecoder, ValueLaneResponseEncoder};
+use swimos_agent_protocol::{LaneRequest, LaneResponse, MapMessage, MapOperation};
+use swimos_api::agent::{Agent, AgentConfig, AgentContext, AgentInitResult, LaneConfig, WarpLaneKind};
+use swimos_api::error::{AgentInitError, FrameIoError};
+use swimos_utilities::routing::RouteUri;
 use swimos_api::address::RelativeAddress;
 use swimos_api::error::StoreError;
 use swimos_api::persistence::{KeyValue, NodePersistence, RangeConsumer};
@@ -34,41 +33,9 @@ use uuid::Uuid;
 use vcore::*;
 
 // ---------------------------------------------------------------------------------------------
-// the agent: persistent and transient lanes, persistent stores fed by the lifecycle
+// the scripted agent: lanes v (persistent value), t (transient value), m (persistent map), tm (transient map)
 
-#[derive(AgentLaneModel)]
-#[agent(root(::swimos_agent))]
-struct PAgent {
-    v: ValueLane<i64>,
-    #[item(transient)]
-    t: ValueLane<i64>,
-    m: MapLane<i64, i64>,
-    #[item(transient)]
-    tm: MapLane<i64, i64>,
-    s: ValueStore<i64>,
-    ms: MapStore<i64, i64>,
-}
-
-fn ps(a: &PAgent) -> &ValueStore<i64> {
-    &a.s
-}
-fn pms(a: &PAgent) -> &MapStore<i64, i64> {
-    &a.ms
-}
-fn pv(a: &PAgent) -> &ValueLane<i64> {
-    &a.v
-}
-fn pt(a: &PAgent) -> &ValueLane<i64> {
-    &a.t
-}
-fn pm(a: &PAgent) -> &MapLane<i64, i64> {
-    &a.m
-}
-fn ptm(a: &PAgent) -> &MapLane<i64, i64> {
-    &a.tm
-}
-
-/// What the agent held when it started (read in on_start).
+/// What the agent was given by the runtime's initialisers when it started.
 #[derive(Clone, Debug, Default, PartialEq)]
 struct Restored {
     v: i64,
@@ -80,55 +47,155 @@ struct Restored {
 }
 
 #[derive(Clone)]
-struct PLifecycle {
+struct ScriptedAgent {
     restored: Arc<Mutex<Option<Restored>>>,
+    /// how many requests a lane lets pass before it reports its pending changes (0: at once)
+    laziness: usize,
 }
 
-fn sorted(m: &HashMap<i64, i64>) -> Vec<(i64, i64)> {
-    let mut v: Vec<(i64, i64)> = m.iter().map(|(k, v)| (*k, *v)).collect();
-    v.sort();
-    v
+type VRx = FramedRead<ByteReader, ValueLaneRequestDecoder<i64>>;
+type VTx = FramedWrite<ByteWriter, ValueLaneResponseEncoder>;
+type MRx = FramedRead<ByteReader, MapLaneRequestDecoder<i64, i64>>;
+type MTx = FramedWrite<ByteWriter, MapLaneResponseEncoder>;
+
+async fn value_lane(mut rx: VRx, mut tx: VTx, mut state: i64, laziness: usize) {
+    let mut pending: Option<i64> = None;
+    let mut waited = 0usize;
+    while let Some(Ok(req)) = rx.next().await {
+        match req {
+            LaneRequest::Command(x) => {
+                state = x;
+                pending = Some(x);
+            }
+            LaneRequest::Sync(id) => {
+                // the current state first, as ValueLane::write_to_buffer does
+                if tx.send(LaneResponse::SyncEvent(id, state)).await.is_err() {
+                    return;
+                }
+                if tx.send(LaneResponse::<i64>::Synced(id)).await.is_err() {
+                    return;
+                }
+            }
+            LaneRequest::InitComplete => {}
+        }
+        if pending.is_some() {
+            if waited >= laziness {
+                if tx.send(LaneResponse::StandardEvent(pending.take().unwrap())).await.is_err() {
+                    return;
+                }
+                waited = 0;
+            } else {
+                waited += 1;
+            }
+        }
+    }
 }
 
-#[lifecycle(PAgent, agent_root(::swimos_agent))]
-impl PLifecycle {
-    #[on_start]
-    fn my_on_start(&self, context: HandlerContext<PAgent>) -> impl EventHandler<PAgent> + '_ {
-        let out = self.restored.clone();
-        context
-            .get_value(pv)
-            .and_then(move |v: i64| {
-                context.get_value(pt).and_then(move |t: i64| {
-                    context.get_map(pm).and_then(move |m: HashMap<i64, i64>| {
-                        context.get_map(ptm).and_then(move |tm: HashMap<i64, i64>| {
-                            context.get_value(ps).and_then(move |s: i64| {
-                                context.get_map(pms).and_then(move |ms: HashMap<i64, i64>| {
-                                    context.effect(move || {
-                                        *out.lock() = Some(Restored { v, t, m: sorted(&m), tm: sorted(&tm), s, ms: sorted(&ms) });
-                                    })
-                                })
-                            })
-                        })
-                    })
-                })
-            })
+async fn map_lane(mut rx: MRx, mut tx: MTx, mut state: BTreeMap<i64, i64>, laziness: usize) {
+    let mut pending: Vec<MapOperation<i64, i64>> = vec![];
+    let mut waited = 0usize;
+    while let Some(Ok(req)) = rx.next().await {
+        match req {
+            LaneRequest::Command(MapMessage::Update { key, value }) => {
+                state.insert(key, value);
+                pending.push(MapOperation::Update { key, value });
+            }
+            LaneRequest::Command(MapMessage::Remove { key }) => {
+                if state.remove(&key).is_some() {
+                    pending.push(MapOperation::Remove { key });
+                }
+            }
+            LaneRequest::Command(MapMessage::Clear) => {
+                state.clear();
+                pending.push(MapOperation::Clear);
+            }
+            LaneRequest::Command(_) => {}
+            LaneRequest::Sync(id) => {
+                for (k, v) in state.iter() {
+                    if tx.send(LaneResponse::SyncEvent(id, MapOperation::Update { key: *k, value: *v })).await.is_err() {
+                        return;
+                    }
+                }
+                if tx.send(LaneResponse::<MapOperation<i64, i64>>::Synced(id)).await.is_err() {
+                    return;
+                }
+            }
+            LaneRequest::InitComplete => {}
+        }
+        if !pending.is_empty() {
+            if waited >= laziness {
+                for op in pending.drain(..) {
+                    if tx.send(LaneResponse::StandardEvent(op)).await.is_err() {
+                        return;
+                    }
+                }
+                waited = 0;
+            } else {
+                waited += 1;
+            }
+        }
     }
-    // the stores follow the persistent lanes (shifted, so that they are told apart)
-    #[on_event(v)]
-    fn v_event(&self, context: HandlerContext<PAgent>, value: &i64) -> impl EventHandler<PAgent> + '_ {
-        context.set_value(ps, *value + 1)
-    }
-    #[on_update(m)]
-    fn m_update(&self, context: HandlerContext<PAgent>, _map: &HashMap<i64, i64>, key: i64, _prev: Option<i64>, new_value: &i64) -> impl EventHandler<PAgent> + '_ {
-        context.update(pms, key, *new_value + 1)
-    }
-    #[on_remove(m)]
-    fn m_remove(&self, context: HandlerContext<PAgent>, _map: &HashMap<i64, i64>, key: i64, _prev: i64) -> impl EventHandler<PAgent> + '_ {
-        context.remove(pms, key)
-    }
-    #[on_clear(m)]
-    fn m_clear(&self, context: HandlerContext<PAgent>, _before: HashMap<i64, i64>) -> impl EventHandler<PAgent> + '_ {
-        context.clear(pms)
+}
+
+impl Agent for ScriptedAgent {
+    fn run(
+        &self,
+        _route: RouteUri,
+        _route_params: HashMap<String, String>,
+        _config: AgentConfig,
+        context: Box<dyn AgentContext + Send>,
+    ) -> BoxFuture<'static, AgentInitResult> {
+        let restored = self.restored.clone();
+        let laziness = self.laziness;
+        async move {
+            let transient = LaneConfig { transient: true, ..LaneConfig::default() };
+            let (v_tx, v_rx) = context.add_lane("v", WarpLaneKind::Value, LaneConfig::default()).await?;
+            let (t_tx, t_rx) = context.add_lane("t", WarpLaneKind::Value, transient).await?;
+            let (m_tx, m_rx) = context.add_lane("m", WarpLaneKind::Map, LaneConfig::default()).await?;
+            let (tm_tx, tm_rx) = context.add_lane("tm", WarpLaneKind::Map, transient).await?;
+            let mut v_rx: VRx = FramedRead::new(v_rx, Default::default());
+            let mut v_tx: VTx = FramedWrite::new(v_tx, Default::default());
+            let mut m_rx: MRx = FramedRead::new(m_rx, Default::default());
+            let mut m_tx: MTx = FramedWrite::new(m_tx, Default::default());
+            // initialisation of the persistent lanes: the stored state, then InitComplete
+            let mut r = Restored::default();
+            loop {
+                match v_rx.next().await {
+                    Some(Ok(LaneRequest::Command(x))) => r.v = x,
+                    Some(Ok(LaneRequest::InitComplete)) => break,
+                    _ => return Err(AgentInitError::LaneInitializationFailure(FrameIoError::Io(std::io::ErrorKind::UnexpectedEof.into()))),
+                }
+            }
+            let _ = v_tx.send(LaneResponse::<i64>::Initialized).await;
+            let mut m = BTreeMap::new();
+            loop {
+                match m_rx.next().await {
+                    Some(Ok(LaneRequest::Command(MapMessage::Update { key, value }))) => {
+                        m.insert(key, value);
+                    }
+                    Some(Ok(LaneRequest::Command(MapMessage::Remove { key }))) => {
+                        m.remove(&key);
+                    }
+                    Some(Ok(LaneRequest::Command(MapMessage::Clear))) => m.clear(),
+                    Some(Ok(LaneRequest::InitComplete)) => break,
+                    _ => return Err(AgentInitError::LaneInitializationFailure(FrameIoError::Io(std::io::ErrorKind::UnexpectedEof.into()))),
+                }
+            }
+            let _ = m_tx.send(LaneResponse::<MapOperation<i64, i64>>::Initialized).await;
+            r.m = m.iter().map(|(k, v)| (*k, *v)).collect();
+            *restored.lock() = Some(r.clone());
+            let task = async move {
+                let _context = context;
+                let a = value_lane(v_rx, v_tx, r.v, laziness);
+                let b = value_lane(FramedRead::new(t_rx, Default::default()), FramedWrite::new(t_tx, Default::default()), 0, laziness);
+                let c = map_lane(m_rx, m_tx, m, laziness);
+                let d = map_lane(FramedRead::new(tm_rx, Default::default()), FramedWrite::new(tm_tx, Default::default()), BTreeMap::new(), laziness);
+                futures::future::join4(a, b, c, d).await;
+                Ok(())
+            };
+            Ok(task.boxed())
+        }
+        .boxed()
     }
 }
 
@@ -283,6 +350,7 @@ enum Cmd {
     Rem(i64),
     Clr,
     UpdT(i64, i64),
+    Sync(&'static str),
 }
 
 struct Remote {
@@ -325,11 +393,10 @@ struct Life {
     _keep: (mpsc::Sender<swimos_api::agent::HttpLaneRequest>, mpsc::Receiver<swimos_runtime::agent::LinkRequest>),
 }
 
-fn start(content: Content, log: Log) -> Life {
+fn start(content: Content, log: Log, laziness: usize) -> Life {
     let restored: Arc<Mutex<Option<Restored>>> = Default::default();
     let asked: Arc<Mutex<Vec<String>>> = Default::default();
-    let lifecycle = PLifecycle { restored: restored.clone() }.into_lifecycle();
-    let agent = AgentModel::new(PAgent::default, lifecycle);
+    let agent = ScriptedAgent { restored: restored.clone(), laziness };
     let identity = AgentRouteDescriptor { identity: Uuid::from_u128(77), route: NODE.parse().unwrap(), route_params: HashMap::new() };
     let (attach_tx, attach_rx) = mpsc::channel(16);
     let (http_tx, http_rx) = mpsc::channel(16);
@@ -406,6 +473,7 @@ fn body(c: &Cmd) -> (&'static str, String) {
         Cmd::Rem(k) => ("m", format!("@remove(key:{})", k)),
         Cmd::Clr => ("m", "@clear".to_string()),
         Cmd::UpdT(k, x) => ("tm", format!("@update(key:{}) {}", k, x)),
+        Cmd::Sync(l) => (l, String::new()),
     }
 }
 
@@ -416,14 +484,15 @@ struct RunOut {
     problem: Option<String>,
 }
 
-async fn first_life(cmds: &[Cmd], second_remote: bool, clean_stop: bool) -> RunOut {
+async fn first_life(cmds: &[Cmd], second_remote: bool, clean_stop: bool, laziness: usize) -> RunOut {
     let log: Log = Default::default();
-    let life = start(Content::default(), log.clone());
+    let life = start(Content::default(), log.clone(), laziness);
     let mut problem = None;
     let mut r1 = match attach(&life, Some(log.clone())).await {
         Some(r) => r,
         None => {
-            return RunOut { log: vec![], asked: vec![], clean_stop_ok: false, problem: Some("the remote could not be attached".into()) };
+            let why = tokio::time::timeout(Duration::from_secs(3), life.task).await;
+            return RunOut { log: vec![], asked: vec![], clean_stop_ok: false, problem: Some(format!("the remote could not be attached: {:?}", why)) };
         }
     };
     for lane in LANES {
@@ -444,7 +513,8 @@ async fn first_life(cmds: &[Cmd], second_remote: bool, clean_stop: bool) -> RunO
     }
     for (i, c) in cmds.iter().enumerate() {
         let (lane, b) = body(c);
-        if !r1.send(lane, swimos_messages::protocol::Operation::Command(b.into_bytes())).await {
+        let op = if matches!(c, Cmd::Sync(_)) { swimos_messages::protocol::Operation::Sync } else { swimos_messages::protocol::Operation::Command(b.into_bytes()) };
+        if !r1.send(lane, op).await {
             problem = Some(format!("command {} could not be sent", i));
             break;
         }
@@ -488,7 +558,7 @@ async fn first_life(cmds: &[Cmd], second_remote: bool, clean_stop: bool) -> RunO
 /// Start the agent again on `content` and look at what it holds.
 async fn second_life(content: Content) -> Result<(Restored, BTreeMap<String, String>, BTreeMap<String, Vec<String>>), String> {
     let log: Log = Default::default();
-    let life = start(content, log);
+    let life = start(content, log, 0);
     let mut r = attach(&life, None).await.ok_or("the remote could not be attached after the restart")?;
     let synced = sync_all(&mut r).await.ok_or("the lanes did not answer a sync after the restart")?;
     let restored = life.restored.lock().clone().ok_or("on_start did not run after the restart")?;
@@ -560,6 +630,7 @@ fn coq_cmd(c: &Cmd) -> String {
         Cmd::Rem(k) => format!("CMap 2 (MRemove {})", zi(*k)),
         Cmd::Clr => "CMap 2 MClear".to_string(),
         Cmd::UpdT(k, x) => format!("CMap 3 (MUpdate {} {})", zi(*k), zi(*x)),
+        Cmd::Sync(_) => "CSet 9 (0)%Z".to_string(),
     }
 }
 fn zz(m: &[(i64, i64)]) -> String {
@@ -588,7 +659,9 @@ fn main() {
         let cmds: Vec<Cmd> = (0..n)
             .map(|_| {
                 next += 10;
-                match rng.below(10) {
+                match rng.below(14) {
+                    10 | 11 => Cmd::Sync("v"),
+                    12 | 13 => Cmd::Sync("m"),
                     0 | 1 | 2 => Cmd::SetV(next),
                     3 => Cmd::SetT(next),
                     4 | 5 | 6 => Cmd::Upd(rng.range(0, 3) as i64, next),
@@ -606,7 +679,9 @@ fn main() {
             .collect();
         let second_remote = rng.below(3) == 0;
         let clean_stop = rng.below(3) == 0;
-        let out = rt.block_on(first_life(&cmds, second_remote, clean_stop));
+        let laziness = *rng.pick(&[0usize, 0, 1, 2, 3]);
+        *kinds.entry(format!("laziness_{}", laziness)).or_default() += 1;
+        let out = rt.block_on(first_life(&cmds, second_remote, clean_stop, laziness));
         if let Some(p) = &out.problem {
             failures.push(format!("case {}: {} (commands {:?})", i, p, cmds));
             continue;
@@ -617,8 +692,8 @@ fn main() {
         let mut asked = out.asked.clone();
         asked.sort();
         asked.dedup();
-        if asked != vec!["m".to_string(), "ms".to_string(), "s".to_string(), "v".to_string()] {
-            failures.push(format!("case {}: store ids were requested for {:?} (persistent items are m, ms, s, v)", i, asked));
+        if asked != vec!["m".to_string(), "v".to_string()] {
+            failures.push(format!("case {}: store ids were requested for {:?} (persistent items are m, v)", i, asked));
         }
         let _ = out.clean_stop_ok;
         let entries: Option<Vec<String>> = out.log.iter().map(coq_entry).collect();
@@ -678,7 +753,7 @@ fn main() {
             nontrivial += 1;
         }
         let term = format!(
-            "{{| pc_mirror := true; pc_cmds := {}; pc_log := {}; pc_crashes := {} |}}",
+            "{{| pc_mirror := false; pc_cmds := {}; pc_log := {}; pc_crashes := {} |}}",
             coq_list(cmds.iter().map(coq_cmd)),
             coq_list(entries),
             coq_list(crashes)
@@ -695,7 +770,7 @@ fn main() {
     let meta = J::obj(vec![
         ("evaluations", J::I(w.len() as i128)),
         ("distinct_nontrivial", J::I(nontrivial as i128)),
-        ("rule", J::s("1-10 commands (set on a persistent and a transient value lane; update / remove / clear on a persistent map lane, update on a transient one; the lifecycle copies the persistent lanes into a value store and a map store) sent by a linked remote to a real agent (derived lane model, AgentModel) running in the real agent runtime (run_agent_with_store) over a recording NodePersistence; a second remote in a third of the cases; the merged log of store operations and frames read by the remotes is checked (every published state was handed to the store first; the store ends up with the state the commands imply); then the agent is stopped (cleanly in a third of the cases, killed otherwise) and, for the end of the log and 3 (quick) / 6 (thorough) random crash points, restarted on the store as it was at that point: what on_start sees in every lane and store and what a sync reports must be the state handed to the store up to there, transient items at their defaults")),
+        ("rule", J::s("(runtime with a scripted agent whose lanes answer a sync with their current state before they report the change that produced it, and report changes 0-3 requests late) 1-10 commands and syncs (set on a persistent and a transient value lane; update / remove / clear on a persistent map lane, update on a transient one; the lifecycle copies the persistent lanes into a value store and a map store) sent by a linked remote to a real agent (derived lane model, AgentModel) running in the real agent runtime (run_agent_with_store) over a recording NodePersistence; a second remote in a third of the cases; the merged log of store operations and frames read by the remotes is checked (every published state was handed to the store first; the store ends up with the state the commands imply); then the agent is stopped (cleanly in a third of the cases, killed otherwise) and, for the end of the log and 3 (quick) / 6 (thorough) random crash points, restarted on the store as it was at that point: what on_start sees in every lane and store and what a sync reports must be the state handed to the store up to there, transient items at their defaults")),
         ("structures", J::counts(&kinds)),
         ("samples", J::A(samples)),
         ("direct_failures", J::A(failures.iter().take(40).map(|f| J::s(f.chars().take(600).collect::<String>())).collect())),
